@@ -249,7 +249,8 @@ def check_tle(idx, dts, which, with_timedelta, t):
                 ok_r = t.margin(f"native |dr| vs 1 cm ({bc})", dr, tol_r, case)
                 ok_v = t.margin(f"native |dv| vs 2|v|/|r| x 1 cm ({bc})", dv, tol_v, case)
                 if not ok_r or not np.all(np.isfinite(x)):
-                    t.fail(f"sgp4beta/vs-reference/{bc}/{_dtclass(dt_us)}",
+                    mag = "lt1m" if dr < 1.0 else "ge1m"  # magnitude class: keeps a gross error apart from a centimetre-level one
+                    t.fail(f"sgp4beta/vs-reference/{bc}/{_dtclass(dt_us)}/{mag}",
                            "native SGP4 equals the reference within 1 cm in the reference's full near-Earth regime", case,
                            [list(r_ref), list(v_ref)], x, f"|dr|={dr:.4f} m, |dv|={dv:.3e} m/s; {vals}; perigee {ref.perigee_km:.1f} km, "
                            f"period {ref.period_min:.1f} min")
